@@ -186,6 +186,10 @@ def py_str(ctx, v):
     if isinstance(v, SStr):
         return v
     if isinstance(v, SInt):
+        if getattr(ctx, "opts", {}).get("abstract_int_str"):
+            ctx.note("stub: str(int) is the uninterpreted function py_int_str (over-approximation used "
+                     "for key equalities)")
+            return SStr(z3.Function("py_int_str", z3.IntSort(), z3.StringSort())(v.term))
         return SStr(int_to_str_term(v.term))
     if isinstance(v, SBool):
         return SStr(z3.If(v.term, z3.StringVal("True"), z3.StringVal("False")))
